@@ -410,9 +410,8 @@ class MapDecoder:
             if h != header and h in body and b & writes:
                 writes.add(h)
         start = fn.blocks[self.label_bb]["term"]["target"]
-        from .guards import reach_tracking_failures
-        seen = reach_tracking_failures(fn, start, writes | {header})
-        return sorted(x for x in seen if x in body and header in cfg.succ[x])
+        from .guards import back_edges_taken
+        return [x for x in back_edges_taken(fn, start, writes, header) if x in body]
 
     def classes_at(self, bb):
         return frozenset(self.classes.get(bb, set()))
@@ -482,9 +481,29 @@ class MapEncoder:
             self.problem = "cannot follow how the map vector is built"
             return
         for e in els:
+            if e.get("via") == "extend":
+                # `map.extend(<sequence>)`: the extras written as an iterator chain instead of a loop of pushes
+                from .seq import Seq, normalize, X
+                s = normalize(Seq(fn, pv).of_operand(e["op"], e["at"][0], e["at"][1]))
+                if s[0] == "map" and s[2][0] == "elems" and s[2][2] == 0 and s[2][3] is None and s[1][0] == "tuple" and len(s[1][1]) == 2:
+                    kt, vt = s[1][1]
+                    ent = {"e": e, "bb": e["bb"], "loop": "seq", "seq_src": s[2][1], "via": "extend", "key_term": kt,
+                           "value": {"op": e["op"], "at": e["at"], "term": vt, "conds": e["conds"]},
+                           "guard": codec.guard_desc(prog, fn, pv, e)}
+                    lab = None
+                    if kt[0] == "tryok" and is_call(kt[1]) and kt[1][1].endswith("::to_cbor_value") and len(kt[1][2]) == 1:
+                        ent["label_src"] = kt[1][2][0]
+                        lab = ("dynamic",)
+                    ent["label"] = lab
+                    self.entries.append(ent)
+                    continue
+                self.entries.append({"label": None, "problem": "extended by a sequence that is not understood", "e": e, "bb": e["bb"],
+                                     "loop": None})
+                continue
             d = codec.find_def_stmt(pv, e["op"], e["at"][0], e["at"][1])
             if not d or d[0] != "stmt" or d[1]["k"] != "aggr" or d[1]["kind"] != "tuple" or len(d[1]["ops"]) != 2:
-                self.entries.append({"label": None, "problem": "pushed element is not a (label, value) pair", "e": e})
+                self.entries.append({"label": None, "problem": "pushed element is not a (label, value) pair", "e": e, "bb": e["bb"],
+                                     "loop": None})
                 continue
             kop, vop = d[1]["ops"]
             kt = pv.operand_term(kop, d[2], d[3])
